@@ -13,6 +13,10 @@ for d in sorted(glob.glob('/verif/seeded/C*-*')):
     for c, v in res.get('checks', {}).items():
         code = {0: 'MISSED (exit 0)', 1: 'caught (VIOLATION)', 2: 'flagged undecided (exit 2)', 3: 'checker error (exit 3)'}.get(v['exit'], str(v['exit']))
         ob = next((l.strip().split(' in ')[0].replace('obligation ', '') for l in v['lines'] if l.strip().startswith('obligation')), '')
+        if v['exit'] == 0 and res.get('demo_with') == 0:
+            code = 'exit 0 — and the demo passes too: on the current tree (after the fix: commits) this change no longer breaks the property'
+        if v['exit'] == 1 and not any('no-failing-input-found' not in l for l in v['lines'] if l.startswith('VIOLATION')):
+            code = 'caught (VIOLATION, no-failing-input-found)'
         verdicts.append(f'{c}: {code}' + (f' — `{ob}`' if ob and v['exit'] == 1 else ''))
     rows.append(f"| {sid} | {meta.get('summary', '')[:150].replace('|', '/')} | {'; '.join(verdicts) or 'not run'} |")
 print('| seeded change | what it does | result of the property\'s quick check |')
